@@ -646,29 +646,53 @@ def matches_table(prog, crate, path, adt):
 
 
 def r15_5(ctx, prog, crate):
-    ri = matches_table(prog, crate, "config::RunIgnored::run_ignored", "config::RunIgnored")
-    rn = matches_table(prog, crate, "config::RunIgnored::run_non_ignored", "config::RunIgnored")
-    if not ctx.anchor("R15.5", "RunIgnored predicate tables", (1 if ri else 0) + (1 if rn else 0), 2):
-        return
-    ctx.check(ri == {"No": False, "Yes": True, "Only": True}, "R15.5", ["run_ignored", "table"], "run_ignored = %s" % ri, None, detail=ri)
-    ctx.check(rn == {"No": True, "Yes": True, "Only": False}, "R15.5", ["run_non_ignored", "table"], "run_non_ignored = %s" % rn, None, detail=rn)
+    """RunIgnored::should_run(ignored) as a truth table over (variant, ignored), read off the path summaries of the function
+    (its helper predicates spliced in, however many there are and whatever they are called): No runs exactly the
+    benchmarks that are not ignored, Only exactly the ignored ones, Yes both."""
+    from lib.patheval import PathEval
+    from lib.symexpr import show
     b = prog.body("config::RunIgnored::should_run", crate)
-    if ctx.anchor("R15.5", "RunIgnored::should_run", 1 if b else 0, 1):
+    names = tables.variant_names(prog, "config::RunIgnored", crate)
+    if ctx.anchor("R15.5", "RunIgnored::should_run + ADT", (1 if b else 0) + (1 if names else 0), 2):
         ctx.saw(b)
-        ok = False
-        for bi, t in b.switches():
-            if {s.label() for s in b.prov.op_src(t["discr"])} == {"param:" + b.param_name(2)}:
-                zero = [a[1] for a in t["arms"] if a[0] == "0"]
-                tc = [c.callee.rsplit("::", 1)[-1] for c in b.live_calls() if c.bb in tables.exclusive_blocks(b, t["otherwise"], zero)]
-                fc = [c.callee.rsplit("::", 1)[-1] for c in b.live_calls() if zero and c.bb in tables.exclusive_blocks(b, zero[0], [t["otherwise"]])]
-                ok = tc == ["run_ignored"] and fc == ["run_non_ignored"]
-                for c in b.live_calls():
-                    ok = ok and {s.label() for s in b.prov.op_src(c.args[0])} == {"param:" + b.param_name(1)}
-        ctx.check(ok, "R15.5", ["should_run", "dispatch"], "should_run is not `if ignored {run_ignored()} else {run_non_ignored()}`", b.where(0))
-        # return value is the call result, unmodified
-        ret = b.prov.local_src(0)
-        ctx.check(not any(s.kind in ("unop", "binop") for s in ret), "R15.5", ["should_run", "result-unmodified"],
-                  "should_run post-processes the predicate result", b.where(0))
+        sums = PathEval(b).run()
+        if ctx.check(bool(sums), "R15.5", ["should_run", "readable"], "cannot summarise RunIgnored::should_run", b.where(0)):
+            IG = ("arg", 2, ())
+            want = {"No": {False: True, True: False}, "Yes": {False: True, True: True}, "Only": {False: False, True: True}}
+            for vi, vn in enumerate(names):
+                for ig in (False, True):
+                    outs = set()
+                    for sm in sums:
+                        ok = True
+                        for a, pol in sm.conds:
+                            if a[0] == "bool" and a[1] == IG:
+                                ok = ok and (pol == ig)
+                            elif a[0] == "discr" and "('arg', 1" in str(a[1]):
+                                v = a[2]
+                                sel = (set(range(len(names))) - {int(x) for x in v[6:].split(",") if x}) if isinstance(v, str) and v.startswith("other:") else {int(v)}
+                                ok = ok and ((vi in sel) == pol)
+                            else:
+                                outs.add("decides on %s" % show(a))
+                        if not ok:
+                            continue
+                        r = sm.ret
+                        neg = False
+                        while r[0] == "un" and r[1] == "Not":
+                            r, neg = r[2], not neg
+                        if r[0] == "site" and r[3] == (("arg", 1, ()),) and prog.body(r[1], crate) is not None:
+                            # a predicate of the variant alone, kept as a call: its own table
+                            from .common import variant_table
+                            vt = variant_table(prog, prog.body(r[1], crate), crate)
+                            r = vt.get(vn, r) if vt else r
+                        if r[0] == "int":
+                            outs.add(bool(r[1]) != neg)
+                        elif r == IG:
+                            outs.add(ig != neg)
+                        else:
+                            outs.add("returns %s" % show(sm.ret))
+                    ctx.check(vn in want and outs == {want[vn][ig]}, "R15.5", ["should_run", vn, "ignored" if ig else "not-ignored"],
+                              "RunIgnored::%s.should_run(%s) is %s, expected %s" % (vn, str(ig).lower(), sorted(map(str, outs)), want.get(vn, {}).get(ig)), b.where(0),
+                              detail={"variant": vn, "ignored": ig, "runs": want.get(vn, {}).get(ig)})
     b = prog.body("divan::Divan::should_ignore", crate)
     if ctx.anchor("R15.5", "Divan::should_ignore", 1 if b else 0, 1):
         ctx.saw(b)
